@@ -78,6 +78,7 @@ def run(K, witness=False):
         return bnot(bor(nl, lk, agp))
 
     for step in range(K):
+        h.tag = 'step%d' % step
         op = h.int("op%d" % step, 0, 3).v
         ri, rs = pick(h, "rule%d" % step, RULES)
         gi, gs = pick(h, "grp%d" % step, GROUPS)
